@@ -864,7 +864,10 @@ def check_C13(tier):
         while json.loads(lines[i])["ev"] != "start":
             i -= 1
         start = json.loads(lines[i])
-        sig = "clock-budget/exceeds-remaining-time" if ev["b"] > ev["rem"] else "clock-budget/clock-runs-out"
+        nrep = ev["movestogo"] or 15
+        sig = ("clock-budget/exceeds-remaining-time" if ev["b"] > ev["rem"] else
+               "clock-budget/clock-runs-out" if ev["rem"] - ev["b"] + start["inc"] < 0 else
+               "clock-budget/repeated-for-moves-to-go-does-not-fit")
         if ev["b"] > ev["rem"] and start["inc"] > 0:
             sig += "/increment>0"
         disc("clock-budget", sig, "", {"game": {k: start[k] for k in ("time", "inc", "movestogo", "phase", "stm", "opp")},
@@ -2482,8 +2485,8 @@ def check_C20(tier):
         key = "C20|%s|%s" % (kind, sig)
         ck.disc_count[key] = ck.disc_count.get(key, 0) + 1
     # the model: every file state x two initialisations in a row
-    cfg = ("SPECIFICATION Spec\nCONSTANTS\n  Rounds = 3\n  FixUnlock = TRUE\nINVARIANTS TypeOK NoHang ResultIsSourceBook CacheRepaired\n"
-           "PROPERTY Terminates\nCHECK_DEADLOCK FALSE\n")
+    cfg = ("SPECIFICATION Spec\nCONSTANTS\n  Rounds = 3\n  FixUnlock = TRUE\nINVARIANTS TypeOK NoHang ResultIsSourceBook\n"
+           "PROPERTIES Terminates CacheRepaired\nCHECK_DEADLOCK FALSE\n")
     a = vlib.tlc("BookCache", cfg, workers=4, tag="bookcache-mc", keep_out=False)
     ck.add_tlc(a)
     art, nodes, games = book_games(tier)
@@ -2572,7 +2575,14 @@ def check_C20(tier):
             kind, n, data = f
             if hangs[0] >= 24:            # the defect is established: do not wait for hundreds of watchdogs
                 return f, "skipped", 0, ""
-            dump, rc, err, _ = bl.book_run(text, "San", cache=True, rounds=2, prefile=data, timeout=8)
+            # two initialisations in a row in one process: a new Book object each time, or - every other fault case - the
+            # same object with Reset() in between
+            # same object with Reset() in between, and then the cache is damaged WHILE the program runs: it builds (or loads) its
+            # book, the file is replaced by the damaged one, and the same object is reset and initialised again
+            if n % 2 == 1 and data is not None:
+                dump, rc, err, _ = bl.book_run(text, "San", cache=True, rounds=2, timeout=8, reuse=True, damage_before_last=data)
+            else:
+                dump, rc, err, _ = bl.book_run(text, "San", cache=True, rounds=2, prefile=data, timeout=8)
             if dump is None and rc == -9:
                 hangs[0] += 1
             return f, dump, rc, err
